@@ -83,6 +83,10 @@ def verify_function(loader, con, case=None, label=None):
                     ctx.prove("%s:post_raise:%s" % (q, cl.label), cl.cond, kind="frame", props=clause_props(cl),
                               role=cl.role)
             return ("raise", ename)
+        if hasattr(con, "hints"):
+            # proof steps: proved first, then available as hypotheses of the clauses below
+            for lab, cond in con.hints(c, a, res):
+                ctx.prove("%s:hint:%s" % (q, lab), cond, kind="hint", props=con.props, role="aux")
         for r in con.raises:
             ctx.prove("%s:raises:%s:whenever" % (q, r.label), snot(r.when(c, a)), kind="raises",
                       props=r.props if r.props is not None else con.props, role=r.role)
@@ -104,8 +108,10 @@ def verify_function(loader, con, case=None, label=None):
     rep.paths = run.path_no
     rep.out_of_reach = run.out_of_reach
     rep.time = getattr(run, "time", 0.0)
+    rep.path_log = []
     for ctx, outcome in run.paths:
         rep.outcomes[outcome[0]] = rep.outcomes.get(outcome[0], 0) + 1
+        rep.path_log.append((list(ctx.decisions), outcome))
     # vacuity canary: the hypotheses of some completed path must be satisfiable
     done = [ctx for ctx, o in run.paths if o[0] in ("return", "raise", "end")]
     if done and not rep.out_of_reach:
